@@ -5,12 +5,13 @@
 cd "$(dirname "$0")/.."
 ROOT=$(pwd)
 mkdir -p "$ROOT/build"
+mkdir -p "$ROOT/coq/Extract" "$ROOT/coq/Gen" "$ROOT/evidence" "$ROOT/replays"   # generated / ignored directories
 exec 9>"$ROOT/build/.buildlock"
 flock 9          # one build at a time (several checks / agents may run concurrently)
 # regenerate the translated part of the model from the source tree (fail-closed: no file on unsupported syntax)
 python3 "$ROOT/tools/translate_origin.py" > "$ROOT/build/translate.log" 2>&1 || { echo "translator: origin.py not translatable:"; tail -2 "$ROOT/build/translate.log"; }
 cd coq
-{ echo "-Q . Oak"; find Base Model Gen Spec Proofs Props Refuted Run -name "*.v" | sort; } > _CoqProject.new
+{ echo "-Q . Oak"; find Base Model Gen Spec Proofs Props Run -name "*.v" | sort; } > _CoqProject.new
 if ! cmp -s _CoqProject.new _CoqProject || [ ! -f Makefile.coq ]; then
   mv _CoqProject.new _CoqProject
   coq_makefile -f _CoqProject -o Makefile.coq >/dev/null
